@@ -26,7 +26,7 @@ ASSUMPTIONS = [
     "For unmapped records the decoded reference name may be any text that is not the name of a real reference (e.g. '*' or ''), or the read may raise.",
 ]
 REQUIRED_CLASSES = ["odd-sequence-length", "even-sequence-length", "empty-sequence", "long-read-name", "all-cigar-ops", "no-cigar", "missing-qualities",
-                    "unmapped", "tags", "multi-member-gzip", "chunked", "write-filtered", "write-reordered", "reverse-strand", "stream-ends-in-a-line-feed-byte", "another-bam-read-first-then-write"]
+                    "unmapped", "tags", "multi-member-gzip", "chunked", "write-filtered", "write-reordered", "reverse-strand", "stream-ends-in-a-line-feed-byte", "another-bam-read-first-then-write", "16384-or-more-cigar-operations"]
 BOUNDS = {"quick": "480 files of up to 6 records (names up to 254, sequences up to 40), all admissible chunk sizes for small files",
           "thorough": "4000 files of up to 40 records, sequences up to 300"}
 BUDGET_S = {"quick": 200, "thorough": 1500}
@@ -59,6 +59,8 @@ def classify(case):
             cl.append("tags")
         if r["flag"] & 16:
             cl.append("reverse-strand")
+    if any(len(r["cigar"]) >= 16384 for r in recs):
+        cl.append("16384-or-more-cigar-operations")
     if {op for r in recs for op, _ in r["cigar"]} >= set("MIDNSHP=X"):
         cl.append("all-cigar-ops")
     if recs and bamenc.record_bytes(norm(recs[-1]))[-1:] == b"\n":
@@ -304,8 +306,24 @@ def task_sampled(stats, known_open, n, seed, max_records, Lmax):
     core.run_hypothesis(sys.modules[__name__], c16_case(max_records, Lmax), stats, known_open, max_examples=n, seed=seed)
 
 
+def task_many_operations(stats, known_open):
+    """Records with so many CIGAR operations that four bytes per operation no longer fit 16 bits (the operation count itself does)."""
+    import sys
+
+    def cases():
+        for n_ops in (16383, 16384, 16385, 20000, 32768, 65535):
+            long_rec = {"ref": 0, "pos": 7, "name": "long", "flag": 0, "mapq": 30, "cigar": [["M", 1]] * n_ops, "seq": ("ACGT" * (n_ops // 4 + 1))[:n_ops],
+                        "qual": None, "tags": ""}
+            short = {"ref": 0, "pos": 9, "name": "short", "flag": 16, "mapq": 1, "cigar": [["M", 3]], "seq": "GAT", "qual": [10, 20, 30], "tags": ""}
+            for recs in ([long_rec, short], [short, long_rec]):
+                case = {"refs": [["chr1", 2 ** 20]], "records": recs, "text": "", "prior_read": False, "write": {"how": "whole"}}
+                case["ks"] = [max(len(bamenc.record_bytes(norm(r))) for r in recs)]
+                yield case
+    core.run_enumeration(sys.modules[__name__], cases(), stats, known_open, name="records of 16383..65535 CIGAR operations")
+
+
 def tasks(tier, seed):
-    out = [("task_example_files", {})]
+    out = [("task_example_files", {}), ("task_many_operations", {})]
     if tier == "quick":
         out += [("task_sampled", dict(n=60, seed=seed * 100 + j, max_records=6, Lmax=40)) for j in range(8)]
     else:
